@@ -251,14 +251,20 @@ def _hash_only_from_cinit(col, rule="C06.R4"):
 
 
 def check(col: Collector):
-    _hash_only_from_cinit(col)
-    _same_data(col)
-    _injective(col)
-    _eq_hash_pairing(col)
-    _hash_assigned(col)
+    with col.rule():
+        _hash_only_from_cinit(col)
+    with col.rule():
+        _same_data(col)
+    with col.rule():
+        _injective(col)
+    with col.rule():
+        _eq_hash_pairing(col)
+    with col.rule():
+        _hash_assigned(col)
     # the path a reference denotes is the sequence of keys given at construction: every access step is recorded verbatim
     from . import c01, c04
     from .common import shared
-    shared(col, "C06.R5", [c04.navigation_rules, c01._entry_points],
-           why="two references denote the same path iff they were built from the same steps; a step rewritten at "
-               "construction makes different written paths equal or equal written paths different")
+    with col.rule():
+        shared(col, "C06.R5", [c04.navigation_rules, c01._entry_points],
+               why="two references denote the same path iff they were built from the same steps; a step rewritten at "
+                   "construction makes different written paths equal or equal written paths different")
